@@ -118,6 +118,15 @@ func TestTimeExpressionStaticAnalysisLeavesNoFormat(t *testing.T) {
 	}
 }
 
+func TestTimeExpressionStaticAnalysisSameAsInput(t *testing.T) {
+	// a constant array is folded by the optimizer: the first element decides the format there as well
+	for _, kb := range []*expressions.KeyBuilder{NewStdKeyBuilderEx(true), NewStdKeyBuilderEx(false)} {
+		compiled, err := kb.Compile(`{@map {@ "2020-01-01" "01/02/2020 10:00"} "{time {0}}"}`)
+		assert.Nil(t, err)
+		assert.Equal(t, "1577836800"+expressions.ArraySeparatorString+"<PARSE-ERROR>", compiled.BuildKey(mockContext("")))
+	}
+}
+
 func TestTimeExpressionDetectionAuto(t *testing.T) {
 	testExpression(t,
 		mockContext("14/Apr/2016:19:12:25 +0200"),
